@@ -20,9 +20,18 @@ Proof.
          repeat match type of H with
                 | context [match ?x with _ => _ end] => destruct x; try discriminate
                 end; inv H; reflexivity).
+  - (* CSetupLen *)
+    destruct (c_pc s); try discriminate.
+    destruct (is_fixed v); [|inv H; exists []; reflexivity].
+    destruct (r_runners (inner s)).
+    + inv H. exists []. reflexivity.
+    + destruct (step_r v (inner s) (RAddCheck CloseRunner)) as [x1|] eqn:E1; try discriminate.
+      destruct (step_r v x1 (RAddAppend (length (r_adds (inner s))))) as [x2|] eqn:E2; inv H.
+      exists [RAddCheck CloseRunner; RAddAppend (length (r_adds (inner s)))].
+      cbn [run_r]. rewrite E1, E2. reflexivity.
   - (* CSetup *)
     destruct (c_pc s) as [| |w| | |]; try discriminate.
-    destruct w.
+    destruct (w && negb (is_fixed v)).
     + destruct (step_r v (inner s) (RAddCheck CloseRunner)) as [x1|] eqn:E1; try discriminate.
       destruct (step_r v x1 (RAddAppend (length (r_adds (inner s))))) as [x2|] eqn:E2;
         try discriminate.
@@ -39,15 +48,21 @@ Proof.
     destruct (step_r v (inner s) RCloseCh) as [x|] eqn:Ex; inv H.
     exists [RCloseCh]. cbn [run_r]. rewrite Ex. reflexivity.
   - (* CAddCheck *)
-    destruct (c_running s).
-    + inv H. exists []. reflexivity.
-    + destruct (step_r v (inner s) (RAddCheck b)) as [x|] eqn:Ex; inv H.
-      exists [RAddCheck b]. cbn [run_r]. rewrite Ex. reflexivity.
+    destruct (c_running s); [inv H; exists []; reflexivity|].
+    destruct (is_fixed v); [inv H; exists []; reflexivity|].
+    destruct (step_r v (inner s) (RAddCheck b)) as [x|] eqn:Ex; inv H.
+    exists [RAddCheck b]. cbn [run_r]. rewrite Ex. reflexivity.
   - (* CAddAppend *)
-    destruct (nth_error (cadds s) k) as [[|a]|]; try discriminate.
-    destruct (lock_held s); try discriminate.
-    destruct (step_r v (inner s) (RAddAppend a)) as [x|] eqn:Ex; inv H.
-    exists [RAddAppend a]. cbn [run_r]. rewrite Ex. reflexivity.
+    destruct (nth_error (cadds s) k) as [[|a|b]|]; try discriminate.
+    + destruct (lock_held s || is_fixed v); try discriminate.
+      destruct (step_r v (inner s) (RAddAppend a)) as [x|] eqn:Ex; inv H.
+      exists [RAddAppend a]. cbn [run_r]. rewrite Ex. reflexivity.
+    + destruct (lock_held s || negb (is_fixed v)); try discriminate.
+      destruct (c_running s); [inv H; exists []; reflexivity|].
+      destruct (step_r v (inner s) (RAddCheck b)) as [x|] eqn:E1; try discriminate.
+      destruct (step_r v x (RAddAppend (length (r_adds (inner s))))) as [y|] eqn:E2; inv H.
+      exists [RAddCheck b; RAddAppend (length (r_adds (inner s)))].
+      cbn [run_r]. rewrite E1, E2. reflexivity.
 Qed.
 
 Lemma run_c_inner v es : forall s s',
@@ -265,7 +280,7 @@ Proof.
   intros v grace bs cls es s H. apply cinv_reach in H. split.
   - intro Hr. destruct (ci_notrun _ _ _ _ H Hr) as [Hpc Hst].
     assert (Hre : reterr s = []) by (apply (ci_reterr _ _ _ _ H); rewrite Hpc; cbn; tauto).
-    cbn [run_c step_c step_r].
+    cbn [run_c step_c step_c_gen step_r].
     cbn [closes w_closes w_inner inner c_running c_closing c_stopped closers c_pc c_procs fch_closed
          timer_fired fired_early fatal_count tie reterr addcl run_rejected cadds].
     rewrite nth_error_app_len.
@@ -346,51 +361,35 @@ Proof.
   destruct (ci_notrun _ _ _ _ H Hr) as [Hpc _].
   destruct (ci_inner_idle _ _ _ _ H ltac:(rewrite Hpc; exact Logic.I)) as [_ Hir].
   destruct (rm_add_before_start v (inner s) b Hir) as [x1 [x2 [E1 [E2 [Hrun Hadd]]]]].
-  cbn [step_c step_c_gen step_c_gen]. rewrite Hr, E1. eexists. eexists. split; [reflexivity|].
-  cbn [step_c step_c_gen cadds w_cadds w_inner inner]. rewrite nth_error_app_len.
-  unfold lock_held. cbn [c_pc w_cadds w_inner]. rewrite Hpc. rewrite E2.
-  split; [reflexivity|]. cbn [inner w_inner]. auto.
+  destruct v.
+  - cbn [step_c step_c_gen is_fixed]. rewrite Hr, E1. eexists. eexists. split; [reflexivity|].
+    cbn [step_c step_c_gen cadds w_cadds w_inner inner]. rewrite nth_error_app_len.
+    unfold lock_held. cbn [c_pc w_cadds w_inner is_fixed orb]. rewrite Hpc. cbn [orb]. rewrite E2.
+    split; [reflexivity|]. cbn [inner w_inner]. auto.
+  - cbn [step_c step_c_gen is_fixed]. rewrite Hr. eexists. eexists. split; [reflexivity|].
+    cbn [step_c step_c_gen cadds w_cadds]. rewrite nth_error_app_len.
+    unfold lock_held. cbn [c_pc w_cadds is_fixed negb orb c_running inner]. rewrite Hpc, Hr.
+    cbn [orb]. rewrite E1, E2. split; [reflexivity|]. cbn [inner w_inner w_cadds]. auto.
 Qed.
 
 (* ------------------------------------------------------------------------------------------ *)
 (* The Close-watching runner.
 
-   Run decides whether to add it from an UNLOCKED read of len(mngr.runners) ([CSetupLen]) and adds
-   it later ([CSetup]).  An Add call that passed its tests before Run was called and appends
-   between the two leaves a run without close-runner: [cm_close_reaches_runners_refuted], on the
-   current code.  Under the discipline that Run is not started while an Add call is in flight
-   ("calm" schedules) Close always reaches the runners. *)
-
-Definition no_pending_add (x : rstate) : bool :=
-  forallb (fun a => match a with AChecked _ => false | _ => true end) (r_adds x).
-
-Definition calm (s : cstate) : bool :=
-  match c_pc s with CDecided _ => no_pending_add (inner s) | _ => true end.
-
-(* a run all of whose states are calm *)
-Fixpoint run_calm (v : variant) (s : cstate) (es : list cev) : option cstate :=
-  match es with
-  | [] => Some s
-  | e :: es' =>
-      if calm s
-      then match step_c v s e with Some s' => run_calm v s' es' | None => None end
-      else None
-  end.
-
-Lemma run_calm_run v es : forall s s', run_calm v s es = Some s' -> run_c v s es = Some s'.
-Proof.
-  induction es as [|e es IH]; intros s s' H; cbn in *; auto.
-  destruct (calm s); try discriminate. destruct (step_c v s e); try discriminate. auto.
-Qed.
+   Before the third fix Run decided whether to add it from an UNLOCKED read of len(mngr.runners)
+   ([CSetupLen]) and added it later ([CSetup]); an Add call that had passed its tests before Run was
+   called and appended between the two left a run without close-runner
+   ([cm_close_reaches_runners_refuted]).  After it, the read and the registration happen under the
+   lock under which Add tests and appends: Close reaches the runners along EVERY schedule. *)
 
 Definition after_setup (pc : cpc) : Prop :=
   match pc with CIdle | CStarted | CDecided _ => False | _ => True end.
+Definition decided_pc (pc : cpc) : Prop := match pc with CDecided _ => True | _ => False end.
+
+Definition watched (x : rstate) : Prop := r_runners x = [] \/ In CloseRunner (r_runners x).
 
 Definition winv (s : cstate) : Prop :=
-  (c_pc s = CDecided false -> r_runners (inner s) = []) /\
-  (after_setup (c_pc s) ->
-   r_running (inner s) = true /\
-   (r_runners (inner s) = [] \/ In CloseRunner (r_runners (inner s)))).
+  (decided_pc (c_pc s) -> watched (inner s)) /\
+  (after_setup (c_pc s) -> r_running (inner s) = true /\ watched (inner s)).
 
 Lemma step_r_fixed_keeps x ev y :
   step_r Fixed x ev = Some y -> r_running x = true ->
@@ -410,14 +409,6 @@ Proof.
     repeat match type of H with
            | context [match ?x with _ => _ end] => destruct x; try discriminate
            end; inv H; cbn; auto.
-Qed.
-
-Lemma pending_blocks_append x a y v :
-  no_pending_add x = true -> step_r v x (RAddAppend a) = Some y -> False.
-Proof.
-  unfold no_pending_add. intros Hn H. cbn [step_r] in H.
-  destruct (nth_error (r_adds x) a) as [[b| |]|] eqn:Ea; try discriminate.
-  rewrite forallb_forall in Hn. specialize (Hn _ (nth_error_In _ _ Ea)). discriminate.
 Qed.
 
 Ltac split_all H :=
@@ -442,7 +433,7 @@ Lemma winv_inner_step s x ev :
   (forall a, ev <> RAddAppend a) -> winv (w_inner s x).
 Proof.
   intros [W1 W2] Ex Hn. pose proof (step_r_runners _ _ _ _ Ex Hn) as Hrn.
-  unfold winv. cbn [inner c_pc w_inner]. rewrite Hrn. split; [exact W1|].
+  unfold winv, watched. cbn [inner c_pc w_inner]. rewrite Hrn. split; [exact W1|].
   intro Ha. destruct (W2 Ha) as [Hr Hw]. split; auto.
   destruct ev; cbn [step_r] in Ex;
     repeat match type of Ex with
@@ -451,25 +442,27 @@ Proof.
 Qed.
 
 Lemma winv_step grace bs s e s' :
-  cinv Fixed grace bs s -> winv s -> calm s = true -> step_c Fixed s e = Some s' -> winv s'.
+  cinv Fixed grace bs s -> winv s -> step_c Fixed s e = Some s' -> winv s'.
 Proof.
-  intros Ci W Hcalm H. destruct e; cbn [step_c step_c_gen step_c_gen] in H.
+  intros Ci W H. destruct e; cbn [step_c step_c_gen is_fixed negb andb orb] in H.
   - (* CRunCas *)
     destruct W as [W1 W2]. destruct (c_running s) eqn:Er; inv H; unfold winv; cbn; auto.
-    split; [discriminate | tauto].
-  - (* CSetupLen *)
-    destruct (c_pc s) eqn:Epc; try discriminate. inv H. unfold winv. cbn. split; [|tauto].
-    intro Hw. destruct (r_runners (inner s)); [reflexivity | discriminate].
+    split; intros [].
+  - (* CSetupLen: the length is read and the close-runner appended in one locked step *)
+    destruct (c_pc s) eqn:Epc; try discriminate.
+    destruct (ci_inner_idle _ _ _ _ Ci ltac:(rewrite Epc; exact Logic.I)) as [_ Hir].
+    unfold winv, watched. destruct (r_runners (inner s)) as [|b0 t] eqn:Ern.
+    + inv H. cbn. rewrite Ern. split; [auto | intros []].
+    + cbn [step_r] in H. rewrite Hir in H. cbn [r_adds] in H. rewrite nth_error_app_len in H.
+      cbn [r_running is_fixed andb r_runners] in H. inv H. cbn. split; [|intros []].
+      intros _. right. rewrite Ern. apply in_or_app. right. left. reflexivity.
   - (* CSetup *)
     destruct W as [W1 _]. destruct (c_pc s) as [| |w| | |] eqn:Epc; try discriminate.
     destruct (ci_inner_idle _ _ _ _ Ci ltac:(rewrite Epc; exact Logic.I)) as [_ Hir].
-    unfold winv. destruct w.
-    + cbn [step_r] in H. rewrite Hir in H. cbn [r_adds] in H. rewrite nth_error_app_len in H.
-      cbn [r_running is_fixed andb r_runners] in H. inv H. cbn. split; [discriminate|].
-      intros _. split; auto. right. apply in_or_app. right. left. reflexivity.
-    + destruct (step_r Fixed (inner s) RRunCas) as [y|] eqn:Ey; inv H.
-      cbn [step_r] in Ey. rewrite Hir in Ey. inv Ey. cbn. split; [discriminate|].
-      intros _. split; auto.
+    rewrite andb_false_r in H.
+    destruct (step_r Fixed (inner s) RRunCas) as [y|] eqn:Ey; inv H.
+    cbn [step_r] in Ey. rewrite Hir in Ey. inv Ey. unfold winv, watched in *. cbn. split; [intros []|].
+    intros _. split; auto. apply W1. exact Logic.I.
   - (* CInner *)
     destruct (inner_allowed e) eqn:Eal; try discriminate.
     destruct (step_r Fixed (inner s) e) as [x|] eqn:Ex; inv H.
@@ -478,7 +471,7 @@ Proof.
   - (* CClosing *)
     destruct W as [_ W2]. destruct (c_pc s) eqn:Epc; try discriminate.
     destruct (r_pc (inner s)); try discriminate.
-    inv H. unfold winv. cbn. split; [discriminate|]. intros _. apply W2. exact Logic.I.
+    inv H. unfold winv. cbn. split; [intros []|]. intros _. apply W2. exact Logic.I.
   - same_inner H W s.
   - same_inner H W s.
   - same_inner H W s.
@@ -487,10 +480,10 @@ Proof.
   - same_inner H W s.
   - (* CCollectCloser *)
     destruct W as [_ W2]. destruct (c_pc s) eqn:Epc; try discriminate.
-    split_all H. inv H. unfold winv. cbn. split; [discriminate|]. intros _. apply W2. exact Logic.I.
+    split_all H. inv H. unfold winv. cbn. split; [intros []|]. intros _. apply W2. exact Logic.I.
   - (* CRunReturn *)
     destruct W as [_ W2]. destruct (c_pc s) eqn:Epc; try discriminate.
-    destruct (i <=? n)%nat; inv H. unfold winv. cbn. split; [discriminate|].
+    destruct (i <=? n)%nat; inv H. unfold winv. cbn. split; [intros []|].
     intros _. apply W2. exact Logic.I.
   - (* CCloseBegin *)
     destruct (step_r Fixed (inner s) RCloseCh) as [x|] eqn:Ex; inv H.
@@ -501,51 +494,44 @@ Proof.
     same_inner H W s.
   - same_inner H W s.
   - same_inner H W s.
-  - (* CAddCheck *)
-    destruct (c_running s) eqn:Er.
-    + inv H. exact W.
-    + destruct (step_r Fixed (inner s) (RAddCheck b)) as [x|] eqn:Ex; inv H.
-      assert (Hw : winv (w_inner s x)).
-      { apply winv_inner_step with (ev := RAddCheck b); auto. intros a Ha. discriminate. }
-      exact Hw.
-  - (* CAddAppend *)
-    destruct (nth_error (cadds s) k) as [[|a]|]; try discriminate.
-    destruct (lock_held s); try discriminate.
-    destruct (step_r Fixed (inner s) (RAddAppend a)) as [x|] eqn:Ex; inv H.
-    destruct W as [W1 W2]. unfold winv. cbn [inner c_pc w_inner]. split.
-    + intro Hpc. exfalso. unfold calm in Hcalm. rewrite Hpc in Hcalm.
-      eapply pending_blocks_append; eauto.
-    + intro Ha. destruct (W2 Ha) as [Hr Hw].
-      destruct (step_r_fixed_keeps _ _ _ Ex Hr) as [Hr' ->]. auto.
+  - (* CAddCheck: only the lock-free test *)
+    same_inner H W s.
+  - (* CAddAppend: under the lock, refused once Run (or Close) was called *)
+    destruct (nth_error (cadds s) k) as [[|a|b]|]; try discriminate.
+    + rewrite orb_true_r in H. discriminate.
+    + rewrite orb_false_r in H. destruct (lock_held s); try discriminate.
+      destruct (c_running s) eqn:Er.
+      * inv H. exact W.
+      * destruct (ci_notrun _ _ _ _ Ci Er) as [Hpc _].
+        split_all H. inv H. unfold winv. cbn. rewrite Hpc. cbn. split; intros [].
 Qed.
 
 Lemma winv_run grace bs es : forall s s',
-  cinv Fixed grace bs s -> winv s -> run_calm Fixed s es = Some s' -> winv s'.
+  cinv Fixed grace bs s -> winv s -> run_c Fixed s es = Some s' -> winv s'.
 Proof.
   induction es as [|e es IH]; intros s s' Ci W H; cbn in H.
   - inv H; auto.
-  - destruct (calm s) eqn:Ec; try discriminate.
-    destruct (step_c Fixed s e) as [s1|] eqn:E; try discriminate.
+  - destruct (step_c Fixed s e) as [s1|] eqn:E; try discriminate.
     apply (IH s1 s'); auto.
     + eapply cinv_step; eauto.
     + eapply winv_step; eauto.
 Qed.
 
 (* CLOSE REACHES THE RUNNERS (fixed code; managers assembled through the constructor, through Add,
-   or both; calm schedules).  Whenever runner goroutines exist, one of them is the close-runner;
+   or both; ALL schedules).  Whenever runner goroutines exist, one of them is the close-runner;
    while it runs, a closed closeCh lets it return - which (C12_cancel_on_first_return, through
    C12_inner_is_runner_manager) cancels the context of all the others. *)
 Lemma cm_close_reaches_runners : forall grace bs cls es s,
-  run_calm Fixed (new_cm grace bs cls) es = Some s ->
+  run_c Fixed (new_cm grace bs cls) es = Some s ->
   r_procs (inner s) <> [] ->
   exists i p, nth_error (r_procs (inner s)) i = Some p /\ p_beh p = CloseRunner /\
     (p_st p = Running -> r_closech (inner s) = true ->
        exists s', step_c Fixed s (CInner (RRunnerReturn i)) = Some s').
 Proof.
   intros grace bs cls es s H Hne.
-  assert (Ci : cinv Fixed grace bs s) by (eapply cinv_reach; eapply run_calm_run; eauto).
+  assert (Ci : cinv Fixed grace bs s) by (eapply cinv_reach; eauto).
   assert (W : winv s).
-  { eapply winv_run; [apply cinv_init | | exact H]. unfold winv. cbn. split; [discriminate|tauto]. }
+  { eapply winv_run; [apply cinv_init | | exact H]. unfold winv. cbn. split; intros []. }
   pose proof (ci_inner _ _ _ _ Ci) as Ii.
   assert (Hsp : spawned_pc (r_pc (inner s))).
   { destruct (r_pc (inner s)) eqn:Epc; cbn; auto;
@@ -554,7 +540,7 @@ Proof.
   { destruct (c_pc s) eqn:Epc; cbn; auto;
       destruct (ci_inner_idle _ _ _ _ Ci ltac:(rewrite Epc; exact Logic.I)) as [Hi _];
       rewrite Hi in Hsp; exact Hsp. }
-  destruct W as [_ W2]. destruct (W2 Ha) as [_ Hw].
+  destruct W as [_ W2]. destruct (W2 Ha) as [_ Hw]. unfold watched in Hw.
   destruct (i_snap _ _ _ Ii Hsp) as [tl [E Hf]]. rewrite (Hf eq_refl), app_nil_r in E.
   destruct Hw as [Hw|Hw].
   - exfalso. apply Hne. rewrite E in Hw. destruct (r_procs (inner s)); [reflexivity|discriminate].
@@ -564,23 +550,35 @@ Proof.
     unfold may_return. rewrite Hb, Hch, orb_true_r. eauto.
 Qed.
 
-(* Without the discipline, on the current code: Add passes its tests on an empty manager, Run
-   reads len(mngr.runners) = 0, Add appends and returns nil, the inner manager starts.  The one
-   runner is running, Close has been called (closeCh is closed), there is no close-runner, and the
-   runner - which waits for its context - cannot return: Close blocks until the caller's own
-   context ends. *)
+(* The tree with the first two fixes but without the third ([run_c_gen Fixed Original]), and the
+   tree before all of them: Add passes its tests on an empty manager, Run reads
+   len(mngr.runners) = 0, Add appends and returns nil, the inner manager starts.  The one runner is
+   running, Close has been called (closeCh is closed), there is no close-runner, and the runner -
+   which waits for its context - cannot return: Close blocks until the caller's own context ends. *)
+Definition close_cannot_stop (s : cstate) (step : cstate -> cev -> option cstate) : Prop :=
+  map p_beh (r_procs (inner s)) = [OnCancel None] /\
+  r_closech (inner s) = true /\ r_cancelled (inner s) = false /\
+  nth_error (closes s) 0 = Some KB /\ c_stopped s = false /\
+  step s (CInner (RRunnerReturn 0)) = None /\ step s (CCloseStep 0) = None.
+
 Lemma cm_close_reaches_runners_refuted :
+  (exists s, run_c Original (new_cm false [] []) add_watcher_race = Some s /\
+             close_cannot_stop s (step_c Original)) /\
+  (exists s, run_c_gen Fixed Original (new_cm false [] []) add_watcher_race = Some s /\
+             close_cannot_stop s (step_c_gen Fixed Original)).
+Proof.
+  split; eexists; (split; [vm_compute; reflexivity|]); unfold close_cannot_stop; repeat split.
+Qed.
+
+(* the same schedule on the fixed code: the Add is refused under the lock *)
+Example add_watcher_race_fixed :
   exists s, run_c Fixed (new_cm false [] []) add_watcher_race = Some s /\
-            map p_beh (r_procs (inner s)) = [OnCancel None] /\
-            r_closech (inner s) = true /\ r_cancelled (inner s) = false /\
-            nth_error (closes s) 0 = Some KB /\ c_stopped s = false /\
-            step_c Fixed s (CInner (RRunnerReturn 0)) = None /\
-            step_c Fixed s (CCloseStep 0) = None.
+            cadds s = [CARefused] /\ r_procs (inner s) = [] /\ r_runners (inner s) = [].
 Proof. eexists. split; [vm_compute; reflexivity|]. repeat split. Qed.
 
 (* non-vacuity: a manager built EMPTY, runners registered through Add, Close during Run *)
 Example close_reaches_added_runners :
-  exists s, run_calm Fixed (new_cm false [] [None])
+  exists s, run_c Fixed (new_cm false [] [None])
                   [CAddCheck (OnCancel (Some 5%Z)); CAddAppend 0; CAddCheck CtxErr; CAddAppend 1;
                    CRunCas; CSetupLen; CSetup; CInner RSpawn; CCloseBegin; CCloseStep 0;
                    CInner (RRunnerReturn 2); CInner (RCollect 2); CInner (RRunnerReturn 0);
